@@ -17,7 +17,7 @@ RULE = ('queries {finite flat facts; a fact whose second argument is a 60-elemen
         'rule with a deep failing branch between answers; registered Python predicates whose clean-up (finally) code needs 0, 3, 12 or 30 nested calls, queried directly and through call/1; predicates answered from two sources (dynamic facts followed by compiled clauses, dynamic facts followed by a Python predicate)} x EVERY recursion_limit from 8 to 400 (each value moves the '
         'point at which the limit strikes; quick: every value up to 89, then every 7th) x projection functions {identity, observe the variables, '
         'raise ValueError at the k-th answer for k=1..5, raise RuntimeError at the 2nd, raise StopIteration at the 2nd, run a bounded sub-query on the same engine for every answer (nested evaluate_bounded, inner limit 150 / 500)}, '
-        'called from a shallow stack; plus bounds ABOVE the interpreter\'s own limit (1200, 3000, 10000) for nat/1, ev/1, a compiled recursion over a dynamic base fact and len/2 of a 700-element list, with the identity projection and projections raising at answer 1, 200, 450, 900, 1400 (each call in a forked child: a dying interpreter is a violation). Checked: no RecursionError escapes; the result is a prefix of RefProlog\'s answer '
+        'called from a shallow stack; plus bounds ABOVE the interpreter\'s own limit (1200, 3000, 10000) for nat/1, ev/1, a compiled recursion over a dynamic base fact and len/2 of a 700-element list, with the identity projection and projections raising at answer 1, 200, 450, 900, 1400 (each call in a forked child: a dying interpreter is a violation); plus, for 5 queries at every limit 8..63, the same call with logging silent and with every logger at DEBUG and a stream handler attached, which must return the same. Checked: no RecursionError escapes; the result is a prefix of RefProlog\'s answer '
         'sequence (projected), and the whole sequence when the limit exceeds the measured stack depth of an unbounded '
         'run by a margin; afterwards sys.getrecursionlimit() is the old value and every live engine variable (weak set '
         'hook) is unbound - also when the projection raised and the caller still holds the query. evaluations = '
@@ -286,7 +286,7 @@ def reference():
 def plan(tier):
     ls = limits(tier)
     n = 16
-    return [(tier, k, n) for k in range(n)] + [('high', k, 16) for k in range(16)]
+    return [(tier, k, n) for k in range(n)] + [('high', k, 16) for k in range(16)] + [('logged', k, 8) for k in range(8)]
 
 
 def _shard(spec, acc):
@@ -448,6 +448,68 @@ def _high_in_thread(bound, qn, kk):
     return out[0]
 
 
+# ---- logging environment x tight limits ---------------------------------------------------------
+# With every logger at DEBUG and a stream handler attached (what a service or a test runner
+# configures), evaluate_bounded must return what it returns with logging silent, for the same
+# query, limit and projection - in particular at limits only a few frames above what the search
+# needs, where anything the library itself does inside the bounded region competes for the stack.
+LOGGED_QUERIES = ['flat', 'len5', 'app', 'mixed-sources', 'pyg0']
+LOGGED_LIMITS = list(range(8, 64))
+
+
+def run_logged(spec, acc):
+    import logging
+    import os
+    _, k, n = spec
+    sys.setrecursionlimit(1000)
+    pytext = compile_cached(show_program(PROGRAM))
+    exp = reference()
+    goals = dict(queries())
+    stream = open(os.devnull, 'w')
+    handler = logging.StreamHandler(stream)
+    root = logging.getLogger()
+    lg = logging.getLogger('yldprolog')
+    idx = 0
+    try:
+        for limit in LOGGED_LIMITS:
+            for qn in LOGGED_QUERIES:
+                for pn in ('identity', 'value'):
+                    idx += 1
+                    if idx % n != k:
+                        continue
+                    acc.n['evaluations'] += 1
+                    acc.n['validated'] += 1
+                    bad0, info0 = one_call(pytext, qn, goals[qn], limit, pn, exp[qn], None)
+                    saved = (root.level, lg.level, lg.propagate)
+                    root.addHandler(handler)
+                    root.setLevel(logging.DEBUG)
+                    lg.setLevel(logging.DEBUG)
+                    lg.propagate = True
+                    try:
+                        bad1, info1 = one_call(pytext, qn, goals[qn], limit, pn, exp[qn], None)
+                    finally:
+                        root.removeHandler(handler)
+                        root.setLevel(saved[0])
+                        lg.setLevel(saved[1])
+                        lg.propagate = saved[2]
+                    if sys.getrecursionlimit() != 1000:
+                        sys.setrecursionlimit(1000)
+                    label = 'query %s, recursion_limit=%d, projection %s, ' % (show_term(goals[qn]), limit, pn)
+                    if bad1 and not bad0:
+                        acc.violation('logging:' + bad1[0], ('L', limit, qn, pn), {'logged': [qn, limit, pn]}, label + 'with DEBUG logging to a stream handler: ' + bad1[1], key='logged|%s|%d|%s' % (qn, limit, pn))
+                        continue
+                    if not bad0 and info0 != info1:
+                        acc.violation('logging:result-depends-on-logging-configuration', ('L', limit, qn, pn), {'logged': [qn, limit, pn]},
+                                      label + 'returns %r (answers, status) with logging silent but %r with every logger at DEBUG and a stream handler attached' % (info0, info1),
+                                      key='logged|%s|%d|%s' % (qn, limit, pn))
+                        continue
+                    acc.n['transitions'] += 2
+                    acc.n['nontrivial'] += 1
+                    acc.outcome(('logged', qn, info1))
+    finally:
+        stream.close()
+
+
 def run_shard(spec):
     """evaluate_bounded is called from a fresh thread, so that the caller's own stack is
     far shallower than every explored limit (a precondition stated by the property)"""
@@ -456,10 +518,14 @@ def run_shard(spec):
     if spec[0] == 'high':
         run_high(spec, acc)
         return acc
+    if spec[0] == 'logged':
+        spec_, target_fn = spec, run_logged
+    else:
+        spec_, target_fn = spec, _shard
 
     def target():
         try:
-            _shard(spec, acc)
+            target_fn(spec_, acc)
         except BaseException as e:  # noqa: BLE001
             import traceback
             err.append(traceback.format_exc())
@@ -473,6 +539,24 @@ def run_shard(spec):
 
 
 def replay(case):
+    if 'logged' in case:
+        acc = Acc()
+        qn, limit, pn = case['logged']
+        global LOGGED_QUERIES, LOGGED_LIMITS
+        sq, sl = LOGGED_QUERIES, LOGGED_LIMITS
+        LOGGED_QUERIES, LOGGED_LIMITS = [qn], [limit]
+        try:
+            res = []
+
+            def tgt():
+                run_logged(('logged', 0, 1), acc)
+            threading.stack_size(256 * 1024 * 1024)
+            th = threading.Thread(target=tgt)
+            th.start()
+            th.join()
+        finally:
+            LOGGED_QUERIES, LOGGED_LIMITS = sq, sl
+        return [(sig, g['detail']) for sig, g in acc.groups.items()]
     if 'high' in case:
         from ..runner import in_child
         try:
